@@ -6,7 +6,8 @@
         aggregator's chunks; chunk_index_start and chunk_index_end of a segment move by that same shift, exactly once, and only
         behind `cas_hash == default` (a segment that already names a stored xorb is left alone); the other aggregator's
         chunks, byte count and pending file infos are all taken over (appended after the shift loop).
-        DataAggregator::finalize (the hash patch) is C15-R15d.
+  R01b  = C15-R15d: DataAggregator::finalize patches the hash of the xorb cut from the aggregated chunks into every pending
+        segment, and file records leave the aggregator only through it.
 """
 from .core import an, strip_generics as sg, edges_where
 from . import flow, paths
@@ -24,6 +25,11 @@ MI = 'deduplication::data_aggregator::DataAggregator::merge_in'
 def run(ctx):
     ctx.rule('R01a', 'merge_in: zero-hash segments of the merged files are shifted (start and end, once) by the receiver\'s chunk count read before the append; chunks, bytes and pending infos are taken over')
     ctx.guarded('R01a', MI, lambda: r01a(ctx))
+    # the other half of the same mechanism: the placeholder hash of every pending segment is replaced by the hash of the xorb cut from the aggregated chunks
+    from . import rules_c15 as c15
+    from .rules_c11 import _Alias
+    ctx.rule('R01b', 'file records leave the aggregator only through DataAggregator::finalize, which patches the hash of the xorb built from the aggregated chunks into every pending segment (= C15-R15d)')
+    ctx.guarded('R01b', c15.AGG + 'finalize', lambda: c15.r15d(_Alias(ctx, 'R15d', 'R01b')))
 
 
 def _last(c):
